@@ -41,6 +41,9 @@ func rulesC02(c *Ctx) {
 	ruleComparators(c, "C02.CMP", "boltz", "Compare")
 	ruleComparatorDirectionSet(c, "C02.CMPDIR", "boltz", "Compare")
 	ruleComparatorDecoder(c, "C02.CMPTYPE", "boltz", "Compare")
+	ruleScannerSortFields(c, "C02.SCANSORT")
+	// candidate ids handed in through a union cursor come once each, in the direction asked for
+	c.As("C14.UNION", "C02.UNION", func() { ruleC14Union(c) })
 	c.Floor("C02.CMP", 5)
 	ruleIdTieBreak(c, "C02.TIEBREAK", c.P.SSAFunc(c.P.Method("boltz", "BaseStore", "newRowComparator")))
 	ruleRowComparatorFirstNonZero(c, "C02.CMP", c.P.SSAFunc(c.P.Method("boltz", "rowComparatorImpl", "Compare")))
